@@ -38,38 +38,53 @@ func checkC11(c *Ctx) {
 	c.Floor["R11.3"] = 5
 }
 
-// pickLoop recognises `mode := true; for _, bb := range b { mode = bb }` and returns the phi holding the picked value.
-func pickLoop(fn *ssa.Function) (*ssa.Phi, string) {
+// pickLoop recognises "the last variadic argument, true when there is none" and returns the value holding the
+// pick: the phi of `mode := true; for _, bb := range b { mode = bb }`, or the result of a private helper with
+// that meaning (`lastBool(true, b)`), decided on the value's term: its alternatives are the constant true and
+// elements of the variadic parameter, indexed by the range variable or by len-1.
+func pickLoop(p *Prog, fn *ssa.Function) (ssa.Value, string) {
 	if !fn.Signature.Variadic() {
 		return nil, "not variadic"
 	}
 	vp := fn.Params[len(fn.Params)-1]
+	te := newTermEval(p)
+	why := "no 'last argument, default true' pick found"
 	for _, b := range fn.Blocks {
 		for _, in := range b.Instrs {
-			ph, ok := in.(*ssa.Phi)
-			if !ok || ph.Type().String() != "bool" || len(ph.Edges) != 2 {
+			v, ok := in.(ssa.Value)
+			if !ok || v.Type().String() != "bool" {
 				continue
 			}
-			var hasTrue, hasElem bool
-			for _, e := range ph.Edges {
-				if cb, ok := constBool(e); ok && cb {
+			switch in.(type) {
+			case *ssa.Phi, *ssa.Call:
+			default:
+				continue
+			}
+			var hasTrue, hasElem, other bool
+			for _, a := range te.eval(v, nil).alts() {
+				switch {
+				case a.Op == "const" && a.Name == "true":
 					hasTrue = true
-				}
-				if u, ok := e.(*ssa.UnOp); ok && u.Op == token.MUL {
-					if ia, ok := u.X.(*ssa.IndexAddr); ok && ia.X == ssa.Value(vp) {
+				case a.Op == "index" && a.Args[0].isParam(vp):
+					ix := a.Args[1].String()
+					if ix == "bin:-(len($"+vp.Name()+"), 1)" || strings.Contains(ix, "loop") || strings.HasPrefix(ix, "bin:+(") {
 						hasElem = true
+					} else {
+						other = true
 					}
+				default:
+					other = true
 				}
 			}
-			if hasTrue && hasElem {
-				return ph, ""
+			if hasElem && hasTrue && !other {
+				return v, ""
 			}
-			if hasElem {
-				return nil, "the picked value does not default to true when no argument is given"
+			if hasElem && !other {
+				why = "the picked value does not default to true when no argument is given"
 			}
 		}
 	}
-	return nil, "no 'last argument, default true' pick loop found"
+	return nil, why
 }
 
 func c11Transitions(c *Ctx, p *Prog, m *Model) {
@@ -95,7 +110,7 @@ func c11Transitions(c *Ctx, p *Prog, m *Model) {
 			r.Unk("R11.1", "transition:"+sp.name, "-", "method not found")
 			continue
 		}
-		ph, why := pickLoop(fn)
+		ph, why := pickLoop(p, fn)
 		if ph == nil {
 			r.Bad("R11.1", "transition:"+sp.name+":pick", p.FuncPos(fn), "%s", why)
 			continue
@@ -107,8 +122,10 @@ func c11Transitions(c *Ctx, p *Prog, m *Model) {
 				if cond == ssa.Value(ph) {
 					return "mode", true
 				}
-				if bo, ok := cond.(*ssa.BinOp); ok && bo.Op == token.LSS && bo.Block() == ph.Block() {
-					return "more", true
+				if bo, ok := cond.(*ssa.BinOp); ok && bo.Op == token.LSS {
+					if phi, isPhi := ph.(*ssa.Phi); isPhi && bo.Block() == phi.Block() {
+						return "more", true
+					}
 				}
 				return "", false
 			}, nil)
